@@ -488,3 +488,235 @@ func (w *Worker) runC19(rc *simapi.RunConfig) *simapi.RunResult {
 	res.Digest = hashStrings(strings.Join(sig, "\n"), out.FlagErr, fmt.Sprint(out.Sched.Hash, out.Sched.Steps))
 	return res
 }
+
+// ---------------------------------------------------------------------------
+// C02 / C03 legs through the analyzer.
+// ---------------------------------------------------------------------------
+
+// orderedPassText renders what a driver would print for a pass, in report order.
+func orderedPassText(p *PassOutcome) []string {
+	out := make([]string, len(p.Diags))
+	for i, d := range p.Diags {
+		out[i] = d.Key()
+	}
+	return out
+}
+
+func (w *Worker) anaSelection(r *simrt.Rand, pkgs []string, n int) string {
+	hw := w.handWritten()
+	sel := map[string]bool{}
+	for _, p := range pkgs {
+		if contains(hw, p) {
+			sel[p] = true
+		}
+	}
+	for i := 0; i < n; i++ {
+		sel[hw[r.Intn(len(hw))]] = true
+	}
+	delete(sel, "ruleguard")
+	var names []string
+	for s := range sel {
+		names = append(names, s)
+	}
+	sort.Strings(names)
+	return strings.Join(names, ",")
+}
+
+// genC02Analyzer: the same passes under different map orders / schedules must
+// report byte-identical diagnostics in the same order.
+func (w *Worker) genC02Analyzer(rc *simapi.RunConfig) {
+	r := simrt.NewRand(rc.RunSeed, "work")
+	rc.Kind = "analyzer-determinism"
+	k := 1 + r.Intn(3)
+	pkgs := w.pickPkgs(r, rc.Index/6, k)
+	for _, p := range pkgs {
+		rc.Visits = append(rc.Visits, simapi.Visit{Pkg: p, Files: w.index.AllFiles(p)})
+	}
+	ex := anaExtra{Flags: map[string]string{"enable": w.anaSelection(r, pkgs, []int{5, 20, 70}[r.Intn(3)]), "disable": ""}, Parallel: true, Order: r.Perm(k)}
+	rc.Extra, _ = json.Marshal(ex)
+	sr := simrt.NewRand(rc.RunSeed, "sched")
+	rc.Variants = []simapi.Variant{serialVariant(),
+		{MapPolicy: simrt.MapReversed, Sched: &simrt.SchedConfig{Strategy: simrt.StratPrio, PrioRule: simrt.PrioReverse}}}
+	for i := 0; i < 2; i++ {
+		v := genVariant(sr, false)
+		if v.MapPolicy == simrt.MapCanonical {
+			v.MapPolicy, v.MapSeed = simrt.MapShuffle, sr.Uint64()
+		}
+		rc.Variants = append(rc.Variants, v)
+	}
+}
+
+func (w *Worker) runC02Analyzer(rc *simapi.RunConfig) *simapi.RunResult {
+	res := &simapi.RunResult{Stats: map[string]int64{}, Probes: map[string]int64{}}
+	var ex anaExtra
+	json.Unmarshal(rc.Extra, &ex)
+	var pkgs []string
+	for _, v := range rc.Visits {
+		pkgs = append(pkgs, v.Pkg)
+	}
+	var base []string
+	var digest, decision []string
+	decision = append(decision, string(rc.Extra), fmt.Sprint(rc.Visits))
+	var baseSteps int64
+	for vi := range rc.Variants {
+		v := &rc.Variants[vi]
+		if vi > 0 {
+			resolve(v, baseSteps)
+		}
+		if v.Sched != nil && v.Sched.StepBudget == 0 {
+			v.Sched.StepBudget = defaultBudget
+		}
+		out := w.execAnalyzer(&ex, pkgs, v)
+		if out.FlagErr != "" {
+			res.Verdict = "skip"
+			res.Notes = append(res.Notes, out.FlagErr)
+			return res
+		}
+		var text []string
+		for i := range out.Passes {
+			p := &out.Passes[i]
+			text = append(text, fmt.Sprintf("== pass %s err=%q panic=%q", p.Pkg, p.Err, p.Panic))
+			text = append(text, orderedPassText(p)...)
+		}
+		ms := simrt.TakeMapStats()
+		digest = append(digest, strings.Join(text, "\n"), fmt.Sprint(out.Sched.Hash, ms.Hash))
+		decision = append(decision, fmt.Sprint(out.Sched.Hash, ms.Hash))
+		res.Stats["executions"]++
+		res.Stats["steps"] += out.Sched.Steps
+		res.Stats["handovers"] += out.Sched.Handovers
+		res.Stats["interleaved_switches"] += out.Sched.Interleaved
+		res.Stats["map_iterations"] += ms.Iterations
+		res.Stats["map_multi"] += ms.Multi
+		res.Stats["map_permuted"] += ms.Permuted
+		res.Stats["map_uncontrolled"] += ms.Uncontrolled
+		res.Stats["diagnostics"] += int64(len(text) - len(out.Passes))
+		if ms.Permuted > 0 || out.Sched.Interleaved > 0 {
+			res.NonTrivial = true
+		}
+		if vi == 0 {
+			base, baseSteps = text, out.Sched.Steps
+			continue
+		}
+		if strings.Join(text, "\n") != strings.Join(base, "\n") {
+			k := 0
+			for k < len(text) && k < len(base) && text[k] == base[k] {
+				k++
+			}
+			a, b := "<end>", "<end>"
+			if k < len(base) {
+				a = base[k]
+			}
+			if k < len(text) {
+				b = text[k]
+			}
+			c := "?"
+			for _, s := range []string{a, b} {
+				parts := strings.SplitN(s, ": ", 3)
+				if len(parts) >= 2 {
+					c = parts[1]
+					break
+				}
+			}
+			oa, ob := multisetDiff(sortedCopy(text), sortedCopy(base))
+			class := "output-differs"
+			if len(oa)+len(ob) == 0 {
+				class = "order-differs"
+			}
+			res.Violations = append(res.Violations, simapi.Violation{Class: class, Identity: class + ":analyzer:" + c,
+				Detail: fmt.Sprintf("analyzer, variant %d (map policy %d, strategy %s): differs from the canonical serial execution at line %d: reference %q, got %q", vi, v.MapPolicy, schedName(v.Sched), k, short(a, 300), short(b, 300))})
+			break
+		}
+	}
+	res.Probes["analyzer_leg"] = 1
+	res.Digest = hashStrings(digest...)
+	res.DecisionID = hashStrings(decision...)
+	return res
+}
+
+// genC03Analyzer: one driver process (configuration cached after the first
+// pass) analyses a seeded history of packages sequentially; every pass must
+// report what fresh checkers report for that package.
+func (w *Worker) genC03Analyzer(rc *simapi.RunConfig) {
+	r := simrt.NewRand(rc.RunSeed, "work")
+	rc.Kind = "analyzer-history"
+	maxLen := 8
+	if rc.Tier == "thorough" {
+		maxLen = 20
+	}
+	rc.Visits = w.genHistory(r, rc.Index/5, maxLen)
+	for i := range rc.Visits { // a pass always sees the whole package, in file-name order
+		rc.Visits[i].Files = w.index.AllFiles(rc.Visits[i].Pkg)
+	}
+	ex := anaExtra{Flags: map[string]string{"enable": w.anaSelection(r, visitPkgs(rc.Visits), []int{3, 12, 40}[r.Intn(3)]), "disable": ""}}
+	if r.Intn(3) == 0 {
+		ex.Flags["@hugeParam.sizeThreshold"] = fmt.Sprint([]int{1, 40, 256}[r.Intn(3)])
+	}
+	rc.Extra, _ = json.Marshal(ex)
+	rc.Variants = []simapi.Variant{{MapPolicy: simrt.MapCanonical}}
+}
+
+func (w *Worker) runC03Analyzer(rc *simapi.RunConfig) *simapi.RunResult {
+	res := &simapi.RunResult{Stats: map[string]int64{}, Probes: map[string]int64{}}
+	var ex anaExtra
+	json.Unmarshal(rc.Extra, &ex)
+	var pkgs []string
+	for _, v := range rc.Visits {
+		pkgs = append(pkgs, v.Pkg)
+	}
+	wl := &Workload{Checkers: strings.Split(ex.Flags["enable"], ","), Params: map[string]map[string]any{}}
+	if v, ok := ex.Flags["@hugeParam.sizeThreshold"]; ok {
+		n := 0
+		fmt.Sscan(v, &n)
+		wl.Params["hugeParam"] = map[string]any{"sizeThreshold": n}
+	}
+	ref, panics := w.refForVisits(wl, rc.Visits)
+	if len(panics) > 0 {
+		res.Verdict = "skip"
+		res.Notes = append(res.Notes, "reference panics (not judged): "+joinShort(panics, 3))
+		return res
+	}
+	out := w.execAnalyzer(&ex, pkgs, &rc.Variants[0])
+	if out.FlagErr != "" {
+		res.Verdict = "skip"
+		res.Notes = append(res.Notes, out.FlagErr)
+		return res
+	}
+	after := 0
+	for i := range out.Passes {
+		p := &out.Passes[i]
+		if p.Panic != "" || p.Err != "" {
+			res.Violations = append(res.Violations, simapi.Violation{Class: "pass-failed-in-history", Identity: "pass-failed-in-history",
+				Detail: fmt.Sprintf("pass %d over %s of a history of %d: err=%q panic=%q", i, p.Pkg, len(pkgs), p.Err, p.Panic)})
+			break
+		}
+		if i >= 1 {
+			after += len(p.Diags)
+		}
+		oa, ob := multisetDiff(passKeys(p), sortedKeys(ref[i], false))
+		if len(oa)+len(ob) > 0 {
+			c := "?"
+			for _, s := range append(oa, ob...) {
+				parts := strings.SplitN(s, ": ", 3)
+				if len(parts) >= 2 {
+					c = parts[1]
+					break
+				}
+			}
+			res.Violations = append(res.Violations, simapi.Violation{Class: "diag-mismatch", Identity: "diag-mismatch:" + c,
+				Detail: fmt.Sprintf("analyzer pass %d over %s (history of %d packages, cached configuration): reported but not in reference [%s]; in reference but not reported [%s]",
+					i, p.Pkg, len(pkgs), joinShort(oa, 4), joinShort(ob, 4))})
+			break
+		}
+		res.Stats["diagnostics"] += int64(len(p.Diags))
+	}
+	res.NonTrivial = len(pkgs) >= 2 && after >= 1
+	res.Stats["visits"] = int64(len(pkgs))
+	res.Probes["analyzer_leg"] = 1
+	res.DecisionID = hashStrings(string(rc.Extra), fmt.Sprint(rc.Visits))
+	var all []string
+	for i := range out.Passes {
+		all = append(all, passKeys(&out.Passes[i])...)
+	}
+	res.Digest = hashStrings(strings.Join(all, "\n"))
+	return res
+}
